@@ -635,7 +635,15 @@ class Interp:
             elif p in kwargs:
                 sub.env[p] = kwargs[p]
             elif p in dflt:
-                sub.env[p] = self.eval(dflt[p])
+                d_ = dflt[p]
+                if isinstance(d_, (ast.Dict, ast.List, ast.Set)):
+                    # a mutable default is ONE object shared by every call that omits the argument
+                    store_ = self.externals.setdefault("__defaults__", {})
+                    if (id(fnode), p) not in store_:
+                        store_[(id(fnode), p)] = self.eval(d_)
+                    sub.env[p] = store_[(id(fnode), p)]
+                else:
+                    sub.env[p] = self.eval(d_)
             else:
                 raise Undecided(f"missing argument {p}")
         return sub.run(A.strip_docstring(fnode.body))
